@@ -351,10 +351,125 @@ func runC01(c *Ctx) {
 	// ---------------------------------------------------------------- C01.5
 	c.Rule("C01.5", "each stage helper uses the source side's codec/compression to read and the destination side's to write", 4)
 	isReqF := p.MustField("message", "isRequest")
-	type want struct{ helper, method, onRequest, onResponse string }
+	type sideSel struct {
+		got          string
+		isReq, known bool
+	}
+	// sidesOf: the (side.field, direction) pairs a value selected by direction can take.  The
+	// selection may be a phi in the function itself or the result of a helper that selects.
+	var sidesOf func(v ssa.Value, depth int) ([]sideSel, bool)
+	sidesOf = func(v ssa.Value, depth int) ([]sideSel, bool) {
+		if depth > 3 {
+			return nil, false
+		}
+		describe := func(e ssa.Value, facts []Fact) (sideSel, bool) {
+			f := LoadedField(e)
+			side := ""
+			if PathOfHasSide(e, "client") {
+				side = "client"
+			} else if PathOfHasSide(e, "server") {
+				side = "server"
+			}
+			if f == nil || side == "" {
+				return sideSel{}, false
+			}
+			ss := sideSel{got: side + "." + f.Name()}
+			for _, fct := range facts {
+				if LoadedField(fct.Cond) == isReqF {
+					ss.isReq, ss.known = fct.Truth, true
+				}
+			}
+			return ss, true
+		}
+		switch x := v.(type) {
+		case *ssa.Phi:
+			var out []sideSel
+			for i, e := range x.Edges {
+				if sub, isSel := e.(*ssa.Phi); isSel {
+					ss, ok := sidesOf(sub, depth+1)
+					if !ok {
+						return nil, false
+					}
+					out = append(out, ss...)
+					continue
+				}
+				ss, ok := describe(e, FactsOnEdge(x.Block().Preds[i], x.Block()))
+				if !ok {
+					return nil, false
+				}
+				out = append(out, ss)
+			}
+			return out, len(out) > 0
+		case *ssa.Call:
+			cal := x.Call.StaticCallee()
+			if cal == nil || !p.inScope(cal) || len(cal.Blocks) == 0 {
+				return nil, false
+			}
+			var out []sideSel
+			okAll := true
+			ForEachInstr(cal, func(in ssa.Instruction) {
+				ret, isRet := in.(*ssa.Return)
+				if !isRet || ret.Block() == cal.Recover || !okAll {
+					return
+				}
+				rv := ReturnValues(ret)
+				if len(rv) != 1 {
+					okAll = false
+					return
+				}
+				if _, isPhi := rv[0].(*ssa.Phi); isPhi {
+					ss, ok := sidesOf(rv[0], depth+1)
+					if !ok {
+						okAll = false
+						return
+					}
+					out = append(out, ss...)
+					return
+				}
+				ss, ok := describe(rv[0], FactsAt(ret.Block()))
+				if !ok {
+					okAll = false
+					return
+				}
+				out = append(out, ss)
+			})
+			return out, okAll && len(out) > 0
+		}
+		return nil, false
+	}
+	judge := func(sels []sideSel, onRequest, onResponse []string) (bool, []string) {
+		good := len(sels) >= 2
+		var seen []string
+		haveReq, haveResp := false, false
+		in := func(s string, set []string) bool {
+			for _, x := range set {
+				if x == s {
+					return true
+				}
+			}
+			return false
+		}
+		for _, ss := range sels {
+			seen = append(seen, ss.got)
+			if !ss.known || ss.isReq && !in(ss.got, onRequest) || !ss.isReq && !in(ss.got, onResponse) {
+				good = false
+			}
+			if ss.known && ss.isReq {
+				haveReq = true
+			}
+			if ss.known && !ss.isReq {
+				haveResp = true
+			}
+		}
+		return good && haveReq && haveResp, seen
+	}
+	type want struct {
+		helper, method        string
+		onRequest, onResponse []string
+	}
 	for _, w := range []want{
-		{"decode", "Unmarshal", "client.codec", "server.codec"},
-		{"encode", "MarshalAppend", "server.codec", "client.codec"},
+		{"decode", "Unmarshal", []string{"client.codec"}, []string{"server.codec"}},
+		{"encode", "MarshalAppend", []string{"server.codec"}, []string{"client.codec"}},
 	} {
 		fn := helper[w.helper]
 		n := 0
@@ -364,87 +479,71 @@ func runC01(c *Ctx) {
 				continue
 			}
 			n++
-			// the receiver is a phi over the two sides: resolve per incoming edge
-			good := true
-			var seen []string
-			ph, ok := cc.Value.(*ssa.Phi)
-			if !ok {
-				good = false
-			} else {
-				for i, e := range ph.Edges {
-					f := LoadedField(e)
-					side := ""
-					if PathOfHasSide(e, "client") {
-						side = "client"
-					} else if PathOfHasSide(e, "server") {
-						side = "server"
-					}
-					if f == nil || side == "" {
-						good = false
-						continue
-					}
-					got := side + "." + f.Name()
-					isReq, known := false, false
-					for _, fct := range FactsOnEdge(ph.Block().Preds[i], ph.Block()) {
-						if LoadedField(fct.Cond) == isReqF {
-							isReq, known = fct.Truth, true
-						}
-					}
-					seen = append(seen, got)
-					if !known || isReq && got != w.onRequest || !isReq && got != w.onResponse {
-						good = false
-					}
-				}
-			}
-			c.Check(good, "C01.5", FuncName(fn), "codec-side:"+w.method, call.Pos(),
-				w.helper+" uses "+w.onRequest+" for requests and "+w.onResponse+" for responses",
-				w.helper+" does not pick the codec by direction as (request: "+w.onRequest+", response: "+w.onResponse+"); found "+joinStr(seen)+": messages are parsed or produced with the other leg's codec")
+			sels, ok := sidesOf(cc.Value, 0)
+			good, seen := judge(sels, w.onRequest, w.onResponse)
+			c.Check(ok && good, "C01.5", FuncName(fn), "codec-side:"+w.method, call.Pos(),
+				w.helper+" uses "+joinStr(w.onRequest)+" for requests and "+joinStr(w.onResponse)+" for responses",
+				w.helper+" does not pick the codec by direction as (request: "+joinStr(w.onRequest)+", response: "+joinStr(w.onResponse)+"); found "+joinStr(seen)+": messages are parsed or produced with the other leg's codec")
 		}
 		if n == 0 {
 			c.Bad("C01.5", FuncName(fn), "codec-side:"+w.method, fn.Pos(), "no "+w.method+" call through a codec found: shape changed")
 		}
 	}
-	for _, w := range []want{{"decompress", "", "client.reqCompression", "client.respCompression"}, {"compress", "", "server.reqCompression", "server.respCompression"}} {
+	// The response compression is not renegotiated: both sides' respCompression cells are stored
+	// together from the same value (checked here), so either names the response's compression.
+	respBoth := []string{"client.respCompression", "server.respCompression"}
+	{
+		rcF := p.MustField("clientProtocolDetails", "respCompression")
+		rsF := p.MustField("serverProtocolDetails", "respCompression")
+		okTogether, nStores := true, 0
+		for _, fn := range p.Funcs {
+			var cvals, svals []ssa.Value
+			for _, st := range StoresToField(fn, rcF) {
+				cvals = append(cvals, st.Val)
+			}
+			for _, st := range StoresToField(fn, rsF) {
+				svals = append(svals, st.Val)
+			}
+			if len(cvals)+len(svals) == 0 {
+				continue
+			}
+			nStores++
+			if len(cvals) != 1 || len(svals) != 1 || cvals[0] != svals[0] {
+				okTogether = false
+			}
+		}
+		if !okTogether || nStores == 0 {
+			// the two cells can differ: each helper must then use the side its direction reads from / writes to
+			respBoth = nil
+		}
+	}
+	for _, w := range []want{
+		{"decompress", "decompressLimited", []string{"client.reqCompression"}, []string{"server.respCompression"}},
+		{"compress", "compress", []string{"server.reqCompression"}, []string{"client.respCompression"}},
+	} {
+		if respBoth != nil {
+			w.onResponse = respBoth
+		}
 		fn := helper[w.helper]
-		good := false
-		var seen []string
-		ForEachInstr(fn, func(in ssa.Instruction) {
-			ph, ok := in.(*ssa.Phi)
-			if !ok || !isPtrTo(ph.Type(), RootPath, "compressionPool") {
-				return
+		n := 0
+		for _, call := range Calls(fn) {
+			sc := call.Common().StaticCallee()
+			if sc == nil || sc.Signature.Recv() == nil || !isPtrTo(sc.Signature.Recv().Type(), RootPath, "compressionPool") || len(call.Common().Args) == 0 {
+				continue
 			}
-			okAll := len(ph.Edges) == 2
-			for i, e := range ph.Edges {
-				f := LoadedField(e)
-				side := ""
-				if PathOfHasSide(e, "client") {
-					side = "client"
-				} else if PathOfHasSide(e, "server") {
-					side = "server"
-				}
-				if f == nil {
-					okAll = false
-					continue
-				}
-				got := side + "." + f.Name()
-				seen = append(seen, got)
-				isReq, known := false, false
-				for _, fct := range FactsOnEdge(ph.Block().Preds[i], ph.Block()) {
-					if LoadedField(fct.Cond) == isReqF {
-						isReq, known = fct.Truth, true
-					}
-				}
-				if !known || isReq && got != w.onRequest || !isReq && got != w.onResponse {
-					okAll = false
-				}
+			if sc.Name() == "Name" {
+				continue
 			}
-			if okAll {
-				good = true
-			}
-		})
-		c.Check(good, "C01.5", FuncName(fn), "compression-side", fn.Pos(),
-			w.helper+" uses "+w.onRequest+" for requests and "+w.onResponse+" for responses",
-			w.helper+" does not select the compression pool by direction as (request: "+w.onRequest+", response: "+w.onResponse+"); found "+joinStr(seen))
+			n++
+			sels, ok := sidesOf(call.Common().Args[0], 0)
+			good, seen := judge(sels, w.onRequest, w.onResponse)
+			c.Check(ok && good, "C01.5", FuncName(fn), "compression-side", call.Pos(),
+				w.helper+" uses "+joinStr(w.onRequest)+" for requests and "+joinStr(w.onResponse)+" for responses",
+				w.helper+" does not select the compression pool by direction as (request: "+joinStr(w.onRequest)+", response: "+joinStr(w.onResponse)+"); found "+joinStr(seen))
+		}
+		if n == 0 {
+			c.Bad("C01.5", FuncName(fn), "compression-side", fn.Pos(), "no call through a compression pool found: shape changed")
+		}
 	}
 
 	// ---------------------------------------------------------------- C01.3
